@@ -244,9 +244,15 @@ impl Ctx {
     }
 }
 
+/// > 0 while inside `catch` (expected panics are not printed)
+pub static QUIET: std::sync::atomic::AtomicUsize = std::sync::atomic::AtomicUsize::new(0);
+
 /// Run `f` catching panics; the panic message is returned as `Err`.
 pub fn catch<T>(f: impl FnOnce() -> T) -> Result<T, String> {
-    match std::panic::catch_unwind(std::panic::AssertUnwindSafe(f)) {
+    QUIET.fetch_add(1, std::sync::atomic::Ordering::SeqCst);
+    let r = std::panic::catch_unwind(std::panic::AssertUnwindSafe(f));
+    QUIET.fetch_sub(1, std::sync::atomic::Ordering::SeqCst);
+    match r {
         Ok(v) => Ok(v),
         Err(e) => {
             let msg = if let Some(s) = e.downcast_ref::<&str>() {
